@@ -270,26 +270,43 @@ Definition construct (o : op) : option (outcome * list call) :=
   | _ => None
   end.
 
-Definition step (w : world) (o : op) : world :=
-  match construct o with
-  | Some (oc, tr) => mkworld (w_trace w ++ tr) (w_nodes w ++ [oc]) (w_built w)
-  | None =>
-    match o with
-    | OpBuild i =>
-        match nth_error (w_nodes w) i with
-        | Some n => let '(p, tr) := build_subgraphs n in mkworld (w_trace w ++ tr) (w_nodes w) (w_built w ++ [p])
-        | None => w
-        end
-    | OpSingleton i =>
-        match nth_error (w_nodes w) i with
-        | Some n => let '(p, tr) := singleton_of n in mkworld (w_trace w ++ tr) (w_nodes w) (w_built w ++ [p])
-        | None => w
-        end
-    | _ => w
-    end
+(* the same session on a tree with/without the two repairs (f13: Scan/SequenceMap argument types, f19: materialise) *)
+Definition construct_gen (f13 f19 : bool) (o : op) : option (outcome * list call) :=
+  match o with
+  | OpIf e t => Some (if_gen f19 e t)
+  | OpLoop v b => Some (loop_gen f19 v b)
+  | OpScan ops m ax d b =>
+      Some (ctor1 f19 KScan (if f13 then scan_types ops m ax else scan_types_orig ops m) b Z.of_nat)
+  | OpSeqMap s a b =>
+      Some (ctor1 f19 KSeqMap (if f13 then seqmap_types s a else seqmap_types_orig s a) b Z.of_nat)
+  | _ => None
   end.
+
+Section Step.
+  Variable constr : op -> option (outcome * list call).
+  Definition step_gen (w : world) (o : op) : world :=
+    match constr o with
+    | Some (oc, tr) => mkworld (w_trace w ++ tr) (w_nodes w ++ [oc]) (w_built w)
+    | None =>
+      match o with
+      | OpBuild i =>
+          match nth_error (w_nodes w) i with
+          | Some n => let '(p, tr) := build_subgraphs n in mkworld (w_trace w ++ tr) (w_nodes w) (w_built w ++ [p])
+          | None => w
+          end
+      | OpSingleton i =>
+          match nth_error (w_nodes w) i with
+          | Some n => let '(p, tr) := singleton_of n in mkworld (w_trace w ++ tr) (w_nodes w) (w_built w ++ [p])
+          | None => w
+          end
+      | _ => w
+      end
+    end.
+End Step.
+Definition step := step_gen construct.
 Definition run_ops (w : world) (l : list op) : world := fold_left step l w.
 Definition empty_world := mkworld [] [] [].
+Definition run_ops_on (f13 f19 : bool) (l : list op) : world := fold_left (step_gen (construct_gen f13 f19)) l empty_world.
 Fixpoint iter {A} (n : nat) (f : A -> A) (a : A) : A := match n with O => a | S m => iter m f (f a) end.
 
 (* the calls a single op is responsible for *)
@@ -415,6 +432,9 @@ Definition show_outcome (o : outcome) : string :=
   end.
 Definition show (r : outcome * list call) : string :=
   show_outcome (fst r) ++ " calls=" ++ sep " " (map show_call (snd r)).
+Definition show_sub (r : result graph * list call) : string :=
+  match fst r with Ok g => "graph{" ++ show_graph g ++ "}" | Err e => "raise " ++ show_exn e end
+  ++ " calls=" ++ sep " " (map show_call (snd r)).
 Definition show_proto (p : proto) : string := show_tys (fst p) ++ "->" ++ show_tys (snd p).
 Definition show_world (w : world) : string :=
   "calls=" ++ sep " " (map show_call (w_trace w)) ++ " nodes=" ++ sep " / " (map show_outcome (w_nodes w))
